@@ -20,7 +20,7 @@ func init() {
 		ID:    "C10",
 		Level: "model_checking",
 		Rule: "bounded-exhaustive: style strings = every sequence of <=3 (thorough 4) declarations over a declaration alphabet (allowed property with accepted / rejected value, disallowed property, vendor prefix, upper case, !important, comments, strings and url() containing ; and :, malformed tails, " +
-			"and an escape alphabet: \\72 ed, r\\65 d, r\\20 ed, \\000072ed, \\1F600, \\d800, \\5c 72, \\75rl(, trailing \\) joined by ';' / '; ', on four element classes, crossed with rule sets {global | element | element-pattern | two overlapping patterns} x {handler | enum | strict regexp | lenient regexp (accepts the empty string) | default handler | unknown property without matcher} x style attribute allowed or not through AllowAttrs. " +
+			"and an escape alphabet: \\72 ed, r\\65 d, r\\20 ed, \\000072ed, \\1F600, \\d800, \\5c 72, \\75rl(, trailing \\) joined by ';' / '; ', on four element classes, crossed with rule sets {global | element | element-pattern | two overlapping patterns} x {handler | enum | strict regexp | lenient regexp (accepts the empty string) | default handler | unknown property without matcher} x style attribute allowed or not through AllowAttrs, plus enum entries and property names spelled in mixed case; the element class varies fastest so that consecutive calls on one policy object mix classes. " +
 			"Oracle (soundness): the output style is split into declarations the way a browser does (quote / paren / escape aware); each property, lower-cased and de-prefixed, must be allowlisted for the element and lower(css-decode(value)) must be accepted by a matcher registered for it. " +
 			"Oracle (completeness, escape-free cleanly parseable inputs only): the surviving declarations are exactly the allowed ones in input order, an all-rejected style leaves no style attribute. non-trivial = at least one declaration was removed.",
 		Assumptions: []string{
